@@ -44,3 +44,9 @@ chk("C04", "exploration",
     "json-gold is the definition of 'JSON-LD rejects'; the CLI is exercised on a subset (all of classes b-d sampled by offset, strings of length <=2).",
     "bounded exhaustive enumeration of malformed inputs x entry points with an independent classifier",
     "DESIGN.md §3 C04")
+
+chk("C09", "model_checking",
+    "Explicit-state search over histories on the real compiled object: for 5 profiles, every sequence of documents of length <=3 (quick) / <=5 (thorough) over a 9-document alphabet (including failing calls and a large document) is executed on one freshly compiled query; every transition is compared byte-for-byte with an independent validation from the profile text and error-ness must agree.",
+    "States are not merged (the compiled query exposes no inspectable state), so the search is a complete tree walk to the depth bound; every model transition is an implementation call.",
+    "explicit-state exhaustive search over operation histories (depth-bounded) on the real object with a differential oracle",
+    "DESIGN.md §3 C09")
